@@ -172,7 +172,20 @@ fn payloads() -> Vec<(&'static str, Vec<u8>)> {
         ("scheme without stop", b"0=1-1\n1=c".to_vec()),
         ("scheme with huge and negative numbers", b"stop=3\n0=2147483648-2147483648\n1=-5-9,c,4294967326-4294967326,99999999999999999999-1\n2=c,c,c,0-0".to_vec()),
         ("scheme stop overflow", b"stop=99999999999\n1=1-1".to_vec()),
+        ("scheme: every line a range above i32::MAX", all_lines("3000000000-4000000000")),
+        ("scheme: every line huge fixed sizes", all_lines("2147483648-2147483648,c,4294967326-4294967326")),
+        ("scheme: every line negative / overflowing / reversed", all_lines("-5-9,99999999999999999999-1,9223372036854775807-1,c,0-0,70000-3")),
+        ("scheme: every line 65536 and 65543", all_lines("65536-65536,65543-65543")),
     ]
+}
+
+/// a scheme whose lines 0..=16 all carry `line` (whatever packet number the session is at, the line applies)
+fn all_lines(line: &str) -> Vec<u8> {
+    let mut s = "stop=17".to_string();
+    for k in 0..=16 {
+        s.push_str(&format!("\n{k}={line}"));
+    }
+    s.into_bytes()
 }
 
 fn run_cases(rep: &mut Report, cases: Vec<(String, bool, Vec<u8>, bool)>, key_prefix: &str) {
@@ -224,7 +237,7 @@ fn session_level(rep: &mut Report, thorough: bool) {
     // pairs over the reduced alphabet
     let cmds: Vec<u8> = if thorough { (0..=12).chain([0x7f, 0xff]).collect() } else { (0..=10).collect() };
     let pids = if thorough { vec![0u32, 1, 2, 0xffff_ffff] } else { vec![0u32, 1] };
-    let ppl: Vec<&(&str, Vec<u8>)> = if thorough { pl.iter().filter(|p| p.0 != "65535 bytes").collect() } else { pl.iter().filter(|p| ["empty", "valid settings", "invalid utf-8", "scheme with huge and negative numbers"].contains(&p.0)).collect() };
+    let ppl: Vec<&(&str, Vec<u8>)> = if thorough { pl.iter().filter(|p| p.0 != "65535 bytes").collect() } else { pl.iter().filter(|p| ["empty", "valid settings", "invalid utf-8", "scheme: every line a range above i32::MAX", "scheme: every line negative / overflowing / reversed"].contains(&p.0)).collect() };
     let mut frames: Vec<(String, Vec<u8>)> = vec![];
     for c in &cmds {
         for id in &pids {
